@@ -1,7 +1,7 @@
 (* C06 property theorems.  Nothing but statements closed by `exact`, a pin, and
    Print Assumptions.  The driver parses this file's output. *)
 From ZV.Common Require Import Base.
-From ZV.C06 Require Import Model ModelGold Spec ProofsBasic ProofsScan ProofsRefine ProofsSmall.
+From ZV.C06 Require Import Model ModelGold Spec ProofsBasic ProofsScan ProofsRefine ProofsSmall ProofsGoldRefine.
 Open Scope N_scope.
 
 (* normalize_hash never produces a slot marker, whatever the hasher returned *)
@@ -31,6 +31,19 @@ Proof. exact smallmap_refines_map_proof. Qed.
 Check smallmap_refines_map :
   forall (h : N -> N) (ops : list op), Forall2 obs_agree (sm_run h (Small []) ops) (srun [] ops).
 Print Assumptions smallmap_refines_map.
+
+(* GoldHashMap (buckets + per-entry links + deleted-slot free list + auto-GC compaction + rehash):
+   for EVERY hash function h, every max-load function ml (the f32 computation is a parameter),
+   every combination of hash cache / auto GC / freelist reuse, every initial capacity and every
+   history, the model answers like a mathematical map; the chain walk never gets stuck. *)
+Theorem gold_refines_map :
+  forall (h ml : N -> N) (cfg : gcfg) (cap : N) (ops : list op),
+    Forall2 obs_agree (grun h ml cfg (with_config ml cfg cap) ops) (srun [] ops).
+Proof. exact gold_refines_map_proof. Qed.
+Check gold_refines_map :
+  forall (h ml : N -> N) (cfg : gcfg) (cap : N) (ops : list op),
+    Forall2 obs_agree (grun h ml cfg (with_config ml cfg cap) ops) (srun [] ops).
+Print Assumptions gold_refines_map.
 
 (* remove_standard's probe loop (no tombstone branch) finds exactly what get_standard's finds *)
 Theorem remove_loop_is_get_loop :
